@@ -42,7 +42,7 @@ type HistCase struct {
 	Height  int        `json:"height"`
 }
 
-const settle = 20 * time.Second
+const settle = 60 * time.Second
 
 func modeName(mode int) string {
 	switch mode {
